@@ -21,6 +21,7 @@ import MajoranaVerif.Proofs.Mvp4Run
 import MajoranaVerif.Proofs.Mvp5Run
 import MajoranaVerif.Proofs.Mvp60SlRun
 import MajoranaVerif.Proofs.Mvp60Flush
+import MajoranaVerif.Proofs.Mvp60Jump
 open GoInt Model Model.Mvp4 Model.Seq Proofs.Mvp4
 
 namespace Props.C03
@@ -293,5 +294,46 @@ example : ∃ target, (Model.Mvp60.run Proofs.Mvp60Flush.wpApp Proofs.Mvp60Flush
   simp only [Proofs.Mvp60Flush.wpObsB, Prod.mk.injEq] at hb
   simp only [Prod.mk.injEq] at he
   exact ⟨_, ha.1, ⟨ha.2.1, ha.2.2, rfl⟩, hb.2.1, hb.1, he.2.1⟩
+
+end Props.C03
+
+/-! ## MVP-6.0 (package R60b): groundwork for unconditional jumps
+
+Unit-level facts (no class restriction) that the correctness proof for programs with `j`/`jal`/`jalr` will rest on; the
+end-to-end statement for such programs is still `Props.C01.Full_mvp60_regonly_correct` (not proved; asserted by the check). -/
+namespace Props.C03
+
+/-- **the branch target buffer remembers the last target (MVP-6.0)** -/
+theorem mvp60_btb_remembers_last_target (b : List (Word × Word)) (pc dest : Word) :
+    Model.Mvp60.btbGet (Model.Mvp60.btbAdd b pc dest) pc = some dest :=
+  Proofs.Mvp60Jump.btbGet_add b pc dest
+
+/-- **a jump is the youngest decoded instruction (MVP-6.0)**: when the decode unit closes itself the last runner on the
+control bus is an unconditional branch -/
+theorem mvp60_jump_is_youngest_decoded (app : App) (ctx : Model.Context) (c : Int) (n : Nat)
+    (du du' : Model.Mvp60.DecodeUnit) (inBus inBus' : Model.BufferedBus Word) (outBus outBus' : Model.BufferedBus Model.Mvp60.Runner)
+    (h : Model.Mvp60.decodeLoop app ctx c n du inBus outBus = .ok (du', inBus', outBus'))
+    (h0 : du.pendingBranchResolution = false) (h1 : du'.pendingBranchResolution = true) :
+    ∃ pre r, outBus'.inside = pre ++ [r] ∧ r.instr.instructionType.IsUnconditionalBranch = true :=
+  Proofs.Mvp60Jump.decodeLoop_jump_last app ctx c n du du' inBus inBus' outBus outBus' h h0 h1
+
+/-- **a jump restarts fetch at its target (MVP-6.0)**: the execute unit that executes an unconditional branch resets the
+fetch unit to the target (decode bus to be cleaned), re-opens the decode unit, teaches the branch target buffer, puts the
+result on the write bus, and signals a flush exactly when the branch unit expected another target -/
+theorem mvp60_jump_restarts_fetch_at_target (app : App) (s s' : Model.Mvp60.State) (i : Nat) (eu : Model.Mvp60.ExecUnit)
+    (x : Model.Mvp60.Runner) (e : Gen.Execution) (out : Model.Mvp60.EuOut)
+    (hj : x.instr.instructionType.IsUnconditionalBranch = true)
+    (hr : x.instr.run s.ctx app.labels x.pc eu.memory 0#32 = .ok e) (hret : e.Return = false) (hmc : e.MemoryChange = false)
+    (hpc : e.PcChange = true) (h : Model.Mvp60.coRun app s i eu x = .ok (s', out)) :
+    s'.fu = s.fu.reset e.NextPc true ∧ s'.du.pendingBranchResolution = false ∧
+    Model.Mvp60.btbGet s'.bu.btb x.pc = some e.NextPc ∧
+    s'.writeBus.inside = s.writeBus.inside ++ [Proofs.Mvp60Jump.ecOfJ x e] ∧
+    (out = if s.bu.toCheck && s.bu.expectation != e.NextPc then .flush x.pc e.NextPc else .none) :=
+  Proofs.Mvp60Jump.coRun_jump app s s' i eu x e out hj hr hret hmc hpc h
+
+/-- Non-vacuity of the buffer fact, with eviction: a full buffer (four entries) forgets its oldest entry and remembers the new one -/
+example : Model.Mvp60.btbGet (Model.Mvp60.btbAdd [(0#32, 4#32), (8#32, 12#32), (16#32, 20#32), (24#32, 28#32)] 32#32 36#32) 32#32 = some 36#32 ∧
+    Model.Mvp60.btbGet (Model.Mvp60.btbAdd [(0#32, 4#32), (8#32, 12#32), (16#32, 20#32), (24#32, 28#32)] 32#32 36#32) 0#32 = none := by
+  decide
 
 end Props.C03
